@@ -71,6 +71,10 @@ def check_num(v):
         raise Undefined(f'not a number: {v!r}')
     if isinstance(v, float) and (v != v or v in (math.inf, -math.inf)):
         raise Undefined('non-finite number')
+    if isinstance(v, int) and not isinstance(v, bool) and v.bit_length() > 1024:
+        # HPL has one NUMBER type; a float beyond the double range is an overflow (undefined), and so is an integer
+        # beyond it - Python's unbounded integers are an artefact of the implementation language
+        raise Undefined('integer too large (beyond the double range)')
     return v
 
 
@@ -247,8 +251,8 @@ def _safe_pow(a, b):
             if a == 0:
                 raise Undefined('0 ** negative')
             return float(a) ** b if abs(a) != 1 else a ** b
-        if abs(a) > 1 and b * a.bit_length() > 200000:
-            raise Undefined('integer power too large')
+        if abs(a) > 1 and b * (a.bit_length() - 1) > 1024:
+            raise Undefined('integer power too large (beyond the double range)')
         return a ** b
     try:
         r = a ** b
